@@ -20,6 +20,11 @@ CHECKS = {
    "Generated fork trees (SKIP_POW with arbitrary difficulty increments incl. ties, and real PoW), headers first then bodies in several generated permutations with duplicates and children-before-parents. After every delivery: the set of stored blocks equals the model's connected set, head work equals the maximum over it, every head move seen through the adapter strictly increases work and every more-work block becomes head; at quiescence head, roots and full unspent scan agree across permutations and with a fresh chain fed only the winning branch. Sampled exploration.",
    "Preconditions from the statement: headers known first, orphan capacity not exceeded. Tree blocks are built/rooted on a builder chain running the same code.",
    "DESIGN.md §5 C03"),
+ "C01": ("pbt", "exploration",
+   "proptest-generated valid transactions/blocks plus an enumerated single-field corruption catalogue with first-principles verdicts; replay-model sums via libsecp over fork/reorg histories",
+   "Valid transactions are assembled by the harness (it knows every secret) from generated multisets of inputs, outputs, kernels, fees, shifts and offsets; every catalogue corruption is applied (including re-signed fee changes and compensated coinbase inflation that only the sum / coinbase rule can catch, and controls that must stay accepted) and fed to Transaction::validate, Block::validate and Chain::process_block with real PoW. Over generated fork/reorg histories the stored per-block sums are compared with sums recomputed from the replay model through libsecp and the full-state equation is checked after every head change. Sampled exploration; the catalogue is enumerated completely per generated object.",
+   "Trusts libsecp256k1-zkp commit_sum and bulletproof verification; verdicts derived from the balance equation, signature coverage and proof binding. A bit flip in a bulletproof is only asserted inside the two leading scalars (other bits are malleable without creating value).",
+   "DESIGN.md §5 C01"),
 }
 
 NOT_YET = {}
